@@ -7,5 +7,6 @@ CONSTANTS
   TemplateNames = {"id", "elem", "wrap", "mk", "val", "unopt", "call", "pair", "same", "swap", "optid", "optelem", "optval", "nest"}
   Depth3From = {"arr"}
   Depth3Cons = {"arr", "opt"}
+  UnionOfContainers = TRUE
   SecondArgKinds = {"opt"}
-INVARIANTS Closed IdLaw ElemWrap OptLaw ExpectedWf Emit
+INVARIANTS Closed IdLaw ElemWrap OptLaw ExpectedWf NoMemberDropped Emit
